@@ -135,6 +135,31 @@ def one(rng, quick):
     return {"hdr": hdr, "ev": ev}
 
 
+def dates_trace():
+    """the observation dates of the spot and of the Asian underlying of every discretisation, maturities in quarters"""
+    from rpylib.product.underlying import Asian, Discretisation, Spot
+    from harness.encode import quantise
+    rows = []
+    try:
+        for m4 in (1, 2, 3, 4, 6, 8, 12, 20):
+            mat = m4 / 4.0
+            cases = [("spot", "", Spot())] + [("asian", d.name, Asian(d)) for d in Discretisation]
+            for kind, disc, und in cases:
+                row = {"kind": kind, "disc": disc, "m4": m4, "raised": 0, "n": 0, "first": 0, "last": 0, "uneven": 0}
+                try:
+                    g = np.asarray(und.compute_times_grid(maturity=mat).grid, dtype=float)
+                    steps = np.diff(g)
+                    row.update(n=int(len(g)), first=quantise(g[0], 1e-6), last=quantise(g[-1], 1e-6),
+                               uneven=quantise(float(np.max(np.abs(steps - steps.mean()))), 1e-12))
+                except ValueError:
+                    row["raised"] = 1
+                rows.append(row)
+        ev = [{"e": "Dates", "rows": rows}]
+    except Exception as ex:
+        ev = [{"e": "Raise", "what": type(ex).__name__ + ": " + str(ex)[:80]}]
+    return {"hdr": {"kind": "product-dates"}, "ev": ev}
+
+
 def main():
     out, tier, seed = sys.argv[1], sys.argv[2], int(sys.argv[3])
     quick = tier == "quick"
@@ -143,6 +168,10 @@ def main():
     with open(out, "w") as f:
         for k, t in enumerate(traces):
             f.write(json.dumps({"tid": f"s{k}", "hdr": t["hdr"], "ev": t["ev"]}) + "\n")
+    if len(sys.argv) > 4:
+        with open(sys.argv[4], "w") as f:
+            t = dates_trace()
+            f.write(json.dumps({"tid": "d0", "hdr": t["hdr"], "ev": t["ev"]}) + "\n")
     print(json.dumps({"traces": len(traces)}))
 
 
